@@ -5,7 +5,7 @@
    [wf_env e] = the table of e is one of those five and the gas-table prices are positive; it holds
    of every environment [env_of cfg height ...] (C07_env_wf).  Statements only; proofs in Evm/InterpProofs*.v. *)
 From Coq Require Import ZArith List Bool.
-From AQ Require Import Evm.OpsModel Evm.Interp Evm.InterpProofs Evm.InterpProofs2 Evm.InterpProofs3 Evm.InterpProofsStatic Evm.InterpProofsMemInv Evm.InterpProofsPanic Evm.InterpProofsExec Evm.InterpProofsDepth Evm.OpsProofsJumpdest.
+From AQ Require Import Evm.OpsModel Evm.Interp Evm.InterpProofs Evm.InterpProofs2 Evm.InterpProofs3 Evm.InterpProofsStatic Evm.InterpProofsMemInv Evm.InterpProofsPanic Evm.InterpProofsExec Evm.InterpProofsDepth Evm.InterpProofsSane Evm.OpsProofsJumpdest.
 Import ListNotations.
 Local Open Scope Z_scope.
 
@@ -210,14 +210,34 @@ Theorem C07_never_panics_needs_gas_bound_refuted :
 Proof. exact modexp_panics_with_huge_gas. Qed.
 Print Assumptions C07_never_panics_needs_gas_bound_refuted.
 
+(* (e0) towards the whole run: frame_sane is kept by an iteration of the loop for every instruction whose pushed value is a
+   non-negative integer by construction (pushes_nonneg: all arithmetic, comparison, bitwise and shift instructions, SHA3, the
+   sizes, PC, MSIZE, GAS, the block fields, POP, MSTORE, MSTORE8, SSTORE, JUMP, JUMPI, JUMPDEST, PUSHn, DUPn, SWAPn, LOGn, the copy
+   instructions, CREATE, the four calls, RETURN, REVERT, SELFDESTRUCT, STOP), and a frame as the call machinery builds it is
+   sane when its code is made of bytes.  The instructions that REMAIN are exactly the eleven that push a value read from
+   the state: ADDRESS, ORIGIN, CALLER, CALLVALUE, GASPRICE, COINBASE (frame / environment fields), BALANCE, SLOAD (world),
+   BLOCKHASH (environment function), CALLDATALOAD, MLOAD (call data / memory contents) — C07_remaining_instructions. *)
+Theorem C07_frame_sane_preserved_partial : forall rec e w fr w' fr', wf_env e -> frame_sane fr -> 0 <= f_pc fr ->
+  pushes_nonneg (c_exec (nth (Z.to_nat (get_op (f_code fr) (f_pc fr))) (e_tbl e) invalid_cop)) = true ->
+  step rec e w fr = S_next w' fr' -> frame_sane fr' /\ 0 <= f_pc fr'.
+Proof. exact step_preserves_sane. Qed.
+Print Assumptions C07_frame_sane_preserved_partial.
+Theorem C07_remaining_instructions : forall x, pushes_nonneg x = false -> x = E_unknown \/ In x needs_wellformed_state.
+Proof. exact pushes_nonneg_complement. Qed.
+Print Assumptions C07_remaining_instructions.
+Theorem C07_fresh_frame_sane : forall code input self caller value gas ro depth tr, Forall byteval code ->
+  frame_sane (new_frame code input self caller value gas ro depth tr) /\ 0 <= f_pc (new_frame code input self caller value gas ro depth tr).
+Proof. exact new_frame_sane. Qed.
+Print Assumptions C07_fresh_frame_sane.
+
 (* (e) the whole run.  Full statement (NOT proved):
      forall fuel e w caller addr input gas value, wf_env e -> 0 <= gas < 2^32 -> (the world, the environment, the
      input and the oracle outputs are made of non-negative integers / bytes) ->
        o_res (call_top fuel e w caller addr input gas value) <> R_panic          (and the same for create_top).
-   What (a)-(c) leave open is the induction over the loop and the nested frames: that frame_sane is an invariant
-   (every instruction pushes a non-negative integer, memory and return data stay byte-valued — which needs the
-   corresponding well-formedness of world, environment and oracle) and that bigModExp's buffers stay below the
-   allocator's limit when gas < 2^32.  Proved part kept from before: nothing before execute panics, for any frame. *)
+   What (a)-(e0) leave open: frame_sane across the eleven state-reading instructions of C07_remaining_instructions (needs
+   well-formedness of world, environment and oracle, and byte-valued memory / call data / return data as further
+   invariants), that bigModExp's buffers stay below the allocator's limit when gas < 2^32, and the induction over
+   the loop and the nested frames that puts the pieces together.  Proved part kept from before: nothing before execute panics, for any frame. *)
 Theorem C07_run_never_panics_partial : forall rec e w fr o, wf_env e ->
   (forall w1 fr1 x temp, exec rec e w1 fr1 x temp <> X_panic) ->
   step rec e w fr = S_done o -> o_res o <> R_panic.
